@@ -214,6 +214,36 @@ func genC18(rt *rapid.T, h *harness.H) interface{} {
 		c.Class = "missing"
 	case 2:
 		c.Class = "syntax-error"
+		if d.Bool("byconstruction") {
+			// an accepted program with one piece of certainly non-grammatical material between two
+			// tokens: a syntax error whatever the library parser says about it
+			cr := genRunCase(rt, h, 0)
+			if cr == nil {
+				return nil
+			}
+			toks := gen.Tokens(cr.Text)
+			pos := d.Int(0, len(toks), "pos")
+			if d.Likely(60, "atboundary") {
+				// prefer declaration boundaries (and the end): there a silently ignored remainder still
+				// leaves a complete program behind
+				var bs []int
+				for i, tk := range toks {
+					if i > 0 && (tk == "prc" || tk == "let" || tk == "type" || tk == "exec") {
+						bs = append(bs, i)
+					}
+				}
+				bs = append(bs, len(toks))
+				pos = bs[d.Pick(len(bs), "boundary")]
+			}
+			ins := d.Of(gen.IllegalMaterial, "illegal")
+			if d.Likely(30, "lonesymbol") {
+				ins = d.Of([]string{"/", "\\", "@", "\x00"}, "symbol")
+			}
+			c.Text = strings.Join(toks[:pos], " ") + " " + ins + " " + strings.Join(toks[pos:], " ")
+			c.Class = "syntax-error-by-construction"
+			c.Labels = cr.Labels
+			break
+		}
 		base := func() string { return (&gen.Syn{D: d}).Program().Text(&astStyle) }
 		c.Text, _ = d.Text(base)
 		if len(c.Text) > 20000 {
@@ -265,6 +295,8 @@ func genC18(rt *rapid.T, h *harness.H) interface{} {
 		}
 		c.ParseOK, c.CheckOK = r.ParseOK, r.ParseOK && r.CheckOK
 		switch c.Class {
+		case "syntax-error-by-construction":
+			c.ParseOK, c.CheckOK = false, false // by construction, not by the library's word
 		case "syntax-error", "empty":
 			if c.ParseOK {
 				return nil
